@@ -178,7 +178,7 @@ PROPS = {
              "bit positions, rotation arithmetic, sign fill", rules_C05,
              ["bit positions", "rotation arithmetic", "sign fill"]),
     "C06": P("C06", "bit/set_bit/checked_byte/count functions reach no panic site; index guards dominate the limb "
-             "accesses (R-TOTAL)", "every counting function's value", rules_with_canon("C06", {"src/bits.rs"}),
+             "accesses (R-TOTAL)", "every counting function's value", rules_with_canon("C06", {"src/bits.rs"}, lambda ctx: [guard.byte_panics(ctx)]),
              ["values of the counting functions", "most_significant_bits"]),
     "C07": P("C07", "every TryFrom/wrapping/saturating conversion in either direction and the *_from_limbs_slice "
              "constructors reach no undischarged panic site: each asserting from_limbs is behind a top-limb bound "
